@@ -127,6 +127,26 @@ theorem copyK_fresh (T : Tables) (hT : schemaCopyOK T = true) (sh : Shape) (ty :
       exact copyK_fresh T hT sh ty hk (i + 1) ks n hp2
 end
 
+/-! ### Copy never reaches its `default: panic` on a value built from handled types -/
+
+mutual
+theorem copy_never_panics (T : Tables) : ∀ (v : Val), allHandled T v = true → copyPanics T v = false
+  | .scalar _ _, _ => rfl
+  | .nil, _ => rfl
+  | .tnil _, h => by simp [allHandled] at h
+  | .node sh a ty keys kids, h => by
+    simp only [allHandled, Bool.and_eq_true] at h
+    simp only [copyPanics, h.1, Bool.not_true, Bool.false_or]
+    exact copyK_never_panics T sh ty kids 0 h.2
+theorem copyK_never_panics (T : Tables) (sh : Shape) (ty : Nat) :
+    ∀ (ks : List Val) (i : Nat), allHandledL T ks = true → copyPanicsK T sh ty i ks = false
+  | [], _, _ => rfl
+  | k :: ks, i, h => by
+    simp only [allHandledL, Bool.and_eq_true] at h
+    simp only [copyPanicsK, copy_never_panics T k h.1, Bool.and_false, Bool.false_or]
+    exact copyK_never_panics T sh ty ks (i + 1) h.2
+end
+
 /-! ### branch trees: a covering table enters a superset -/
 
 theorem labelsL_append {α : Type} (A B : List (Tree α)) : labelsL (A ++ B) = labelsL A ++ labelsL B := by
